@@ -484,3 +484,10 @@ M('C02', 'TakeDiag fusion compares a label with a position', 'evaluable.py', "fu
 M('C02', 'Sum fusion removes the label at the wrong place', 'evaluable.py', "            return transpose(Einsum(func.args, func.args_idx, func.out_idx[:rmaxis] + func.out_idx[rmaxis+1:]), axes)\n\n    def _sum(self, axis):", "            return transpose(Einsum(func.args, func.args_idx, func.out_idx[:rmaxis] + func.out_idx[rmaxis+1:]), axes)  # unchanged\n\n    def _sum(self, axis):", expect='silent')
 M('C09', 'zip weights looked up at the zipped element index', 'sample.py', "        weights = self._samples[0].get_evaluable_weights(ielem0)", "        weights = self._samples[0].get_evaluable_weights(ielem)", rule='R09.1')
 M('C09', 'transformed points use the signed determinant', 'points.py', "self.points.weights * abs(float(self.trans.det))", "self.points.weights * float(self.trans.det)", rule='R09.4')
+M('C06', 'SearchSorted upper bound one too small', 'evaluable.py', "        return 0, self.array.shape[0]._intbounds[1]", "        return 0, max(0, self.array.shape[0]._intbounds[1] - 1)", rule='R06.4')
+M('C06', 'Replace filters after joining', 'function.py', "        unreplaced = {name: shape_dtype for name, shape_dtype in arg.arguments.items() if name not in self._replacements}\n        arguments = _join_arguments([unreplaced] + [replacement.arguments for replacement in self._replacements.values()])",
+  "        joined = _join_arguments([arg.arguments] + [replacement.arguments for replacement in self._replacements.values()])\n        arguments = {name: shape_dtype for name, shape_dtype in joined.items() if name not in self._replacements}", rule='R06.5')
+M('C07', 'eigh eigenvectors announce the operand dtype', 'function.py', "shape=a.shape, dtype=float if a.dtype != complex else complex)", "shape=a.shape, dtype=a.dtype)", rule='R07.4')
+M('C07', 'take normalises negative indices in the caller array', 'function.py', "            indices = numpy.array(indices)\n            indices[indices < 0] += length", "            indices = numpy.asarray(indices)\n            indices[indices < 0] += length", rule='R07.5')
+M('C07', 'slice stop 0 treated as negative', 'function.py', "        stop = n if s.stop is None else s.stop if s.stop >= 0 else s.stop + n\n        if start == 0 and stop == n:\n            return array\n        length = stop - start", "        stop = n if s.stop is None else s.stop if s.stop > 0 else s.stop + n\n        if start == 0 and stop == n:\n            return array\n        length = stop - start", rule='R07.6')
+M('C07', 'revert F13: matmul without alignment check', 'function.py', "        if arg1.shape[-1] != arg2.shape[-1 if arg2.ndim == 1 else -2]:\n            raise ValueError(f'shapes {arg1.shape} and {arg2.shape} are not aligned')\n        if arg2.ndim == 1:", "        if arg2.ndim == 1:", rule='R07.7')
